@@ -142,9 +142,33 @@ class Repo:
         methods: Dict[str, ast.FunctionDef] = {}
         for st in node.body:
             if isinstance(st, ast.AnnAssign) and isinstance(st.target, ast.Name):
-                fields.append((st.target.id, st.value))
+                ann = self.dotted(mod, st.annotation.value if isinstance(st.annotation, ast.Subscript) else st.annotation)
+                if ann in ("typing.ClassVar", "ClassVar"):
+                    continue                      # a class attribute, not a dataclass field
+                dflt = st.value
+                if isinstance(dflt, ast.Call) and self.dotted(mod, dflt.func) in ("dataclasses.field", "field"):
+                    kw = {k.arg: k.value for k in dflt.keywords}
+                    if "default" in kw:
+                        dflt = kw["default"]
+                    elif "default_factory" in kw:
+                        dflt = ast.copy_location(ast.Call(func=kw["default_factory"], args=[], keywords=[]), dflt)
+                        ast.fix_missing_locations(dflt)
+                    else:
+                        dflt = None
+                fields.append((st.target.id, dflt))
             elif isinstance(st, ast.FunctionDef):
                 methods[st.name] = st
+        if is_dc:
+            # fields (and methods) of dataclass bases defined earlier in the same module come first
+            inherited: List[Tuple[str, Optional[ast.expr]]] = []
+            for b in node.bases:
+                base = mod.classes.get(b.id) if isinstance(b, ast.Name) else None
+                if base is not None and base.is_dataclass:
+                    own = {f for f, _ in fields}
+                    inherited.extend((f, d) for f, d in base.fields if f not in own and f not in {x for x, _ in inherited})
+                    for mname, mnode in base.methods.items():
+                        methods.setdefault(mname, mnode)
+            fields = inherited + fields
         return ClassInfo(node.name, mod, node, bases, is_dc, fields, methods)
 
     def _index_enum(self, cls: ClassInfo) -> None:
